@@ -133,6 +133,26 @@ type Kernel struct {
 
 	pool *PoolSim
 
+	// progress counts scheduler iterations; the worker's stall detector reads
+	// it from outside the bubble (norace accessors).
+	progress uint64
+
+	// stallToken orders the scheduler's state before the stall detector's
+	// reads of it for the race detector (released before every wait for
+	// quiescence, acquired by the detector).
+	stallToken [8]byte
+
+	// OnStall, if set, is asked for a verdict when the run has stalled: some
+	// goroutine of the bubble is blocked on a mutex (which the bubble does not
+	// count as durably blocked) while nothing can run, typically because the
+	// holder of the mutex is parked at a yield.  Whether that is a defect of
+	// the code under test (a Get of another key waiting for a global lock) or
+	// merely a design whose waiters queue on a mutex (sync.Once) is for the
+	// workload to say; nil means "no verdict" and the run is inconclusive.
+	// It runs outside the bubble while every goroutine of the bubble is
+	// blocked and may read scheduler-side state.
+	OnStall func(info *StallInfo) *Violation
+
 	// MuteAuto makes the yields inserted by tools/autoyield (sites "auto:…")
 	// no-ops for this run.
 	MuteAuto bool
@@ -579,12 +599,36 @@ func (k *Kernel) resume(t *Task, abort bool) {
 	raceEnable()
 }
 
+// StallInfo describes a stalled run to OnStall.
+type StallInfo struct {
+	// MutexBlocked and Parked are the goroutine ids of the bubble's
+	// goroutines that are blocked on a mutex (or another non-durable wait)
+	// and parked at a yield point, respectively.
+	MutexBlocked []uint64
+	Parked       []uint64
+	Dump         string
+}
+
+// TaskOfGoid maps a goroutine id to its task (scheduler-side state; for
+// OnStall).
+func (k *Kernel) TaskOfGoid(id uint64) *Task { return k.byGoid[id] }
+
+//go:norace
+func (k *Kernel) tick() { k.progress++ }
+
+// Progress returns the number of scheduler iterations so far.
+//
+//go:norace
+func (k *Kernel) Progress() uint64 { return k.progress }
+
 // Run drives the simulation until nothing is runnable.  It returns with all
 // tasks either exited, parked-but-disabled, or blocked inside the code under
 // test; Finish must be called afterwards.
 func (k *Kernel) Run() {
 	storeCurrent(k)
 	for {
+		k.tick()
+		raceReleaseMerge(unsafe.Pointer(&k.stallToken))
 		synctest.Wait()
 		k.drain()
 		if k.AfterDrain != nil && k.Violation == nil && k.HarnessErr == "" {
@@ -692,6 +736,8 @@ func (t *Task) Exited() bool { return t.state == stExited }
 func (k *Kernel) Finish() {
 	k.aborting = true
 	for i := 0; i < 10000; i++ {
+		k.tick()
+		raceReleaseMerge(unsafe.Pointer(&k.stallToken))
 		synctest.Wait()
 		k.drain()
 		ps := k.Parked()
